@@ -95,11 +95,14 @@ Ltac okd :=
       end ];
   try domgoal.
 
+Lemma cell_step_okdom c1 c2 s : dom (hp s) = D -> okdom D (cell_step rec stk c1 c2 s).
+Proof. intros Hs. unfold cell_step. okd. Qed.
+
 Lemma patch_cells_okdom l1 l2 acc : okdom D acc -> okdom D (patch_cells rec stk l1 l2 acc).
 Proof.
   revert l2 acc. induction l1 as [|a l1 IH]; intros l2 acc Hacc; simpl; [exact Hacc|].
   destruct l2 as [|b l2]; [exact Hacc|]. apply IH. apply okdom_bind; [exact Hacc|].
-  intros s _ Hs. apply Hgood. exact Hs.
+  intros s _ Hs. apply cell_step_okdom. exact Hs.
 Qed.
 
 Lemma patch_function_okdom s a b : dom (hp s) = D -> okdom D (patch_function rec s stk a b).
@@ -127,13 +130,30 @@ Proof.
   intros Hs. unfold setattr_class. simpl. okd; apply patch_function_okdom; assumption.
 Qed.
 
+Lemma patch_class_body_okdom c_old c_new s mapped :
+  dom (hp s) = D -> okdom D (patch_class_body modname bases_ok nm rec stk c_old c_new s mapped).
+Proof.
+  intros Hs. unfold patch_class_body. okd.
+  rewrite setattr_class_is_bind.
+  apply (okdom_fold D (fun k s => setattr_class modname rec stk c_old c_new (Ok s c_old) k)).
+  - intros kk s0 Hs0. apply setattr_class_okdom. exact Hs0.
+  - apply okdom_ok. domgoal.
+Qed.
+
+Lemma map_bases_okdom obs (k : st -> list addr -> res) :
+  (forall s l, dom (hp s) = D -> okdom D (k s l)) ->
+  forall nbs s acc, dom (hp s) = D -> okdom D (map_bases rec stk obs nbs s acc k).
+Proof.
+  intros Hk. induction nbs as [|nb nbs IH]; intros s acc Hs; simpl; [apply Hk; exact Hs|].
+  destruct (find_old_base (hp s) obs nb).
+  - apply okdom_bind; [apply Hgood; exact Hs|]. intros s' u Hs'. apply IH. exact Hs'.
+  - apply IH. exact Hs.
+Qed.
+
 Lemma patch_class_okdom s a b : dom (hp s) = D -> okdom D (patch_class modname bases_ok nm rec s stk a b).
 Proof.
   intros Hs. unfold patch_class. okd.
-  rewrite setattr_class_is_bind.
-  apply (okdom_fold D (fun k s => setattr_class modname rec stk a b (Ok s a) k)).
-  - intros kk s0 Hs0. apply setattr_class_okdom. exact Hs0.
-  - apply okdom_ok. domgoal.
+  apply map_bases_okdom; [|assumption]. intros s0 l Hs0. apply patch_class_body_okdom. exact Hs0.
 Qed.
 
 Lemma slot_step_okdom i_old i_new k s :
